@@ -139,6 +139,27 @@ fn special_eq(input: &[u8], s: &[u8], m: &FormatModel) -> bool {
     })
 }
 
+/// Is `b` (after an optional sign) a configured special string under the format's case / separator rules,
+/// *without* giving numbers precedence? Some(true) = NaN, Some(false) = an infinity. Used where a radix makes
+/// the special strings numeric (radix >= 19) and the order of number / special parsing is the recorded finding.
+pub fn special_only(b: &[u8], m: &FormatModel, o: &OptModel) -> Option<bool> {
+    if m.no_special {
+        return None;
+    }
+    let rest = if !b.is_empty() && (b[0] == b'-' || b[0] == b'+') { &b[1..] } else { b };
+    if let Some(s) = &o.nan {
+        if special_eq(rest, s, m) {
+            return Some(true);
+        }
+    }
+    for s in [&o.infinity, &o.inf].into_iter().flatten() {
+        if special_eq(rest, s, m) {
+            return Some(false);
+        }
+    }
+    None
+}
+
 /// Complete-parse reference for floats.
 pub fn ref_parse_float(b: &[u8], m: &FormatModel, o: &OptModel) -> RefF {
     let radix = m.mantissa_radix();
